@@ -168,6 +168,33 @@ CHECKS = {
             "the SubRip/WebVTT readers never set) is a modelling device checked by the byte comparison; coloured "
             "runs are outside the WebVTT representability predicate; in the matrix and in the styled-source suite texts are plain Latin words (arbitrary "
             "Unicode text only in the SubRip/WebVTT model comparison)."),
+    "C03": (True,
+            "Executable Gallina model of ttml.go: the time-expression parser over bytes with bit-exact binary64 (Flocq; ParseFloat on its "
+            "exact path, math.Round, int conversion), the reader over an XML token tree (paths by local name, indentation stripping, the "
+            "held <br> token, line/run splitting, style/region tables, parent links, reference resolution, metadata and the five "
+            "languages, frameRate/tickRate), the writer to a tree and to BYTES (xml.Encoder escaping and indentation modelled), and a "
+            "byte-level XML parser for the subset the writer emits. Machine-checked for ALL values: every time-expression form denotes "
+            "the instant it means - clock times with a 0..3 digit fraction exactly, clock times with frames, offsets in h/m/s/ms with any "
+            "decimal fraction, frames and ticks at any rate: exactly when the instant is a whole number of ns, else within 1 ns (instants "
+            "below 2^49 ns, mantissas below 2^53); parse(format t) = t truncated to the ms for all t >= 0; every rendering of a paragraph "
+            "(<br/> between or inside spans, any indentation) reads as the lines and runs it means; every style is linked to the parent "
+            "its attribute names, for any parent relation (sharing, forward references); every returned reference names a table entry; "
+            "name-space prefixes and attribute order are irrelevant; the five language codes with any subtag; write->read round trip for "
+            "every representable document and every white-space indent option, at tree level and THROUGH BYTES (the Coq parser inverts "
+            "the byte-level writer model for every document value); reader and writer never panic; the writer refuses exactly the empty "
+            "list. Tie: extracted reader model vs ReadFromTTML on ground-truth documents x renderings (every boundary in any equivalent "
+            "time syntax, indentation, br placement, prefixes) parsed into the tree by the harness's own encoding/xml loop; time "
+            "expressions through a hook on exhaustive and boundary grids; WriteToTTML bytes = the model's bytes for every indent option; "
+            "the Coq XML parser vs encoding/xml on the library's output; oracles: exact rational instants, an independent "
+            "encoding/xml-based decoder and the library's reader on writer output (cues, styles, regions, title, copyright, language) "
+            "for text of XML-legal characters.",
+            "Rocq proof over a Gallina model of the TTML codec (bit-exact binary64 time arithmetic, tree-level reader, byte-level writer and parser) + extracted-model differential correspondence + independent XML-based decoder and exact-rational time oracle",
+            "encoding/xml's tokenizer on arbitrary rendered documents is a stated contract (harness-side tree builder, faithful domain "
+            "xml_simple: no comments/PI/CDATA/CR/white-space character references inside the root); for writer output the contract is "
+            "replaced by the parser theorem plus a per-case comparison of Go's decoder with the Coq parser; theorems that mention the "
+            "reader print the four standard-library Reals axioms Flocq brings in (ClassicalDedekindReals.sig_not_dec, sig_forall_dec, "
+            "functional_extensionality_dep, Classical_Prop.classic); fractional frame/tick counts (12.5f) are truncated by the library "
+            "(int field pinned by the repository's tests) and are outside the generator; regexp = hand matchers; details in notes/C03.md."),
     "C04": (True,
             "Executable Gallina model of the SSA/ASS reader and writer (Model/Ssa.v: line scanning, sections, comments, the Format map "
             "with its overlay quirk, style rows, event rows with surplus commas folded into the last column, colours, booleans, numbers, "
